@@ -23,7 +23,7 @@ import schemathesis
 from schemathesis.core.errors import IncorrectUsage
 from schemathesis.core.result import Ok
 
-from harness.core import InfraError, REPO
+from harness.core import InfraError, ROOT
 from harness.gens import c07_docs as G
 
 KF_LAZY = "C07:pytest.lazy.get_schema:fixture-schema-filters-discarded"
@@ -556,8 +556,11 @@ def run(chk):
     variants = detect_variants(chk, cases["A"])
     chk.variants.update({"pytest.lazy.get_schema": variants["lazy"], "_measure_statistic": variants["statistic"]})
     check_tables(chk)
-    # 1. witnesses of the known findings
+    # 1. corpus: witnesses of the known findings and minimised past disagreements run first
     judge(chk, cases["A"], [WITNESS_LAZY, WITNESS_STAT], "witness", reg, variants)
+    for f in sorted((ROOT / "corpus" / "C07").glob("*.json")):
+        entry = json.loads(f.read_text())
+        judge(chk, Case(f.stem, entry["doc"], preds), [entry["program"]], "corpus", reg, variants)
     # 2. exhaustive small scope: every filter set of <=1 include and <=1 exclude single-criterion filters, every document
     small = list(exhaustive_programs(1, 1))
     for k, c in cases.items():
@@ -823,10 +826,22 @@ def replay(chk, data):
     reg = G.RegexRegistry()
     r = data["replay"]
     print(data.get("what"))
+    if "input" in r and isinstance(r["input"], dict):  # a recorded correspondence disagreement
+        print("recorded model:", json.dumps(r.get("model")))
+        print("recorded impl :", json.dumps(r.get("impl")))
+        r = r["input"]
+    if "graphql" in r:
+        base = schemathesis.graphql.from_file(r["graphql"])
+        schema, st = apply_calls(base, r["program"]["calls"], [])
+        print("program:", json.dumps(r["program"]))
+        print("impl now:", st, labels_of(schema) if schema is not None else None)
+        return 0
     if "doc" not in r:
         print(json.dumps(r, indent=1, default=str)[:4000])
         return 0
     case = Case(r.get("doc_name", "replay"), r["doc"], preds)
+    variants = detect_variants(chk, Case("A", G.designed_docs()["A"], preds))
+    print("variants of this tree:", variants)
     if "program" in r:
         p = r["program"]
         print("program:", json.dumps(p))
@@ -838,6 +853,14 @@ def replay(chk, data):
         m = chk.driver().one("run", {"rx": reg.tables(case.world.strings()), "ops": case.ops, "programs": [w]})
         print("model/spec:", json.dumps(m))
         print("oracle offered:", oracle_offered(case, p["calls"]))
-    else:
-        print("cli:", r.get("cli"), "recorded impl:", r.get("impl"), "expected:", r.get("expected"))
+        if "phase" in r:
+            print("recorded engine phase:", r["phase"], "operations hit:", r.get("impl"), "expected:", r.get("expected"))
+    elif "cli" in r:
+        chk2 = type(chk)(chk.prop, chk.tier, chk.seed)
+        cli_run(chk2, case, [r["cli"]], reg, variants)
+        print("cli:", json.dumps(r["cli"]))
+        print("recorded impl:", r.get("impl"), "expected:", r.get("expected"))
+        print("now: violations =", [(v["signature"], v["what"]) for v in chk2.violations],
+              "known =", [k["signature"] for k in chk2.known_hits],
+              "disagreements =", {k: v["disagreements"] for k, v in chk2.mech.items() if v["disagreements"]})
     return 0
